@@ -42,7 +42,7 @@ Section PipeProofs.
     rewrite leb_rows. apply Nat.eqb_neq in Hu. rewrite Hu.
     destruct Ha as [<-|[<-|[<-|Ha]]].
     - change (norm_axis ax_None) with ax_None.
-      rewrite (get_None zero add divn HIM Hn1 Hm u (meth:=Average)) by discriminate.
+      rewrite (get_None zero add divn HIM Hn1 Hm u).
       destruct (rejects ax_None u); reflexivity.
     - change (norm_axis ax_0) with ax_0.
       rewrite (get_0 zero add divn HIM Hn1 Hm u).
@@ -75,7 +75,7 @@ Section PipeProofs.
     destruct (shape_IM zero add divn HIM Hn1 Hm) as [En Em].
     destruct Ha as [<-|[<-|[<-|Ha]]].
     - change (norm_axis ax_None) with ax_None.
-      rewrite (get_None zero add divn HIM Hn1 Hm u (meth:=Average)) by discriminate.
+      rewrite (get_None zero add divn HIM Hn1 Hm u).
       destruct (rejects ax_None u); [discriminate|]. rewrite En, Em.
       intros HS; apply Ok_inj in HS; subst S.
       apply (wf_put_plain n m); apply T_shape; apply W.
